@@ -66,3 +66,39 @@ package commonmark
 //@   use CountC_shift(old(b), start, 0, 0, len(old(b)) - start)
 //@   use CountC_none(old(b), 0, start, len(old(b)))
 //@   serves C01, C08, C04
+
+// ---------------------------------------------------------------------------
+// Line acquisition (C01, C08).  readline advances p.i to the end of the next
+// line.  Where that end lies is a function of the buffered bytes alone
+// (LineEnd mentions no byte beyond the one after the line), so it does not
+// depend on how the reader chunks the stream; the reader is consulted only
+// while no error is latched, the latched error is never overwritten, and bytes
+// already in the buffer are never changed.
+// ---------------------------------------------------------------------------
+
+//@ spec NoEOL(s []byte, a int, b int) bool = forall k in [a, b): !IsEOL(s[k])
+//@ -- s[a:e) is one line: ended by LF, by CRLF, by a CR that is known not to be followed by LF, or by the end of the data
+//@ spec LineEnd(s []byte, a int, e int, eof bool) bool = a <= e && e <= len(s) && (
+//@       (e >= a + 1 && s[e - 1] == '\n' && ((e >= a + 2 && s[e - 2] == '\r' && NoEOL(s, a, e - 2)) || NoEOL(s, a, e - 1)))
+//@    || (e >= a + 1 && s[e - 1] == '\r' && NoEOL(s, a, e - 1) && ((e < len(s) && s[e] != '\n') || (e == len(s) && eof)))
+//@    || (e == len(s) && eof && NoEOL(s, a, e)))
+
+//@ func (*BlockParser).readline
+//@   requires !isnil(p) && 0 <= p.i && p.i <= len(p.buf) && (p.err == nil ==> p.r != nil)
+//@   requires 0 <= p.lineno && p.lineno <= 4611686018427387904
+//@   modifies p.buf, p.i, p.err, p.buf[len(p.buf):cap(p.buf)], alloc
+//@   ensures[idx] old(p.i) <= p.i && p.i <= len(p.buf)
+//@   ensures[result] result <==> old(p.i) < p.i
+//@   ensures[kept] forall k in [0, min(len(old(p.buf)), len(p.buf))): p.buf[k] == old(p.buf[k])
+//@   ensures[line] (p.i > old(p.i) || len(p.buf) >= len(old(p.buf))) ==> LineEnd(p.buf, old(p.i), p.i, p.err != nil)
+//@   ensures[eof] !result ==> p.err != nil
+//@   ensures[latch] old(p.err) != nil ==> (p.err == old(p.err) && aliases(p.buf, old(p.buf)) && len(p.buf) == len(old(p.buf)) && bytesUnchanged())
+//@   callsite (io.Reader).Read: requires[open] p.err == nil && $recv == p.r
+//@   loop 0: invariant[idx] !isnil(p) && p.i == old(p.i) && 0 <= p.i && p.i <= len(p.buf) && eolEnd == -1 && (p.err == nil ==> p.r != nil) && p.r == old(p.r)
+//@   loop 0: invariant[len] len(p.buf) >= len(old(p.buf))
+//@   loop 0: invariant[kept] forall k in [0, len(old(p.buf))): p.buf[k] == old(p.buf[k])
+//@   loop 0: invariant[where] fresh(p.buf) || (aliases(p.buf, old(p.buf)) && cap(p.buf) == cap(old(p.buf)))
+//@   loop 0: invariant[latch] old(p.err) != nil ==> (p.err == old(p.err) && aliases(p.buf, old(p.buf)) && len(p.buf) == len(old(p.buf)) && bytesUnchanged())
+//@   loop 0: invariant[frame] framed()
+//@   unclaimed dec:0 termination needs a reader that does not return (0, nil) forever (io.Reader contract)
+//@   serves C01, C08, C04
